@@ -19,7 +19,11 @@ Verdict(e) ==
   ELSE LET q == RatVal(t, ctx) IN
        IF q = UndefQ THEN {"note_not_judged"}
        ELSE IF IsNaN(q) THEN (IF o.t = "nan" THEN {} ELSE {"division_by_zero_not_nan"})
-       ELSE IF o.t = "float" THEN (IF o.q = q THEN {} ELSE {"float_result_wrong"})
+       ELSE IF o.t = "float" THEN
+              (IF o.q = q THEN {}
+               ELSE LET mag == MagVal(t, ctx) IN
+                    IF mag = UndefQ THEN {"note_not_judged"}
+                    ELSE IF WithinRounding(o.fn, o.fd, q, mag) THEN {"note_within_forward_error_bound"} ELSE {"float_result_wrong"})
        ELSE IF o.t = "int" THEN (IF IsSmall(o.b) /\ <<SmallInt(o.b), 1>> = q THEN {} ELSE {"float_result_wrong"})
        ELSE IF o.t = "exc" THEN {"raises_on_defined_expression"}
        ELSE {"float_result_wrong"}
